@@ -758,18 +758,17 @@ Proof.
     + intros x [<-|Hx]; [lia|auto].
 Qed.
 
-Definition static_table (t : table) : Prop := forall s, In s (segs t) -> 0 <= fo s.
-
-(* layouts without a floating segment: the closest segment start at or above the request, else refused *)
-Lemma init_offset_snaps_lemma t r : static_table t -> 0 < r ->
+(* a positive init offset snaps to the closest segment start at or above it (floating segments do not count) and is refused
+   (SPSDK error) beyond the last fixed segment -- on every layout *)
+Lemma init_offset_snaps_lemma t r : 0 < r ->
   match set_init t r with
   | Ok io => (exists s, In s (segs t) /\ fo s = io) /\ r <= io /\ (forall s, In s (segs t) -> r <= fo s -> io <= fo s)
   | Err k => k = 1%N /\ forall s, In s (segs t) -> fo s < r
   end.
 Proof.
-  intros St Hr. unfold set_init.
+  intros Hr. unfold set_init.
   destruct (r <? 0) eqn:E1; [lia|]. destruct (r =? 0) eqn:E2; [lia|].
-  set (P := fun o => (r <=? o) || (o <? 0)).
+  set (P := fun o => r <=? o).
   destruct (filter P (map fo (segs t))) as [|o rest] eqn:Ef.
   - split; [reflexivity|]. intros s Hs.
     destruct (Z_lt_le_dec (fo s) r) as [|Hge]; [assumption|].
@@ -778,7 +777,7 @@ Proof.
     rewrite Ef in Hin. contradiction.
   - assert (Hall : forall x, In x (o :: rest) -> r <= x /\ exists s, In s (segs t) /\ fo s = x).
     { intros x Hx. rewrite <- Ef in Hx. apply filter_In in Hx as [Hx1 Hx2].
-      apply in_map_iff in Hx1 as (s & Hs1 & Hs2). pose proof (St s Hs2). unfold P in Hx2.
+      apply in_map_iff in Hx1 as (s & Hs1 & Hs2). unfold P in Hx2.
       split; [lia|]. exists s. split; assumption. }
     destruct (fold_min_spec rest o) as (Hm1 & Hm2 & Hm3).
     set (m := fold_left Z.min rest o) in *.
@@ -790,14 +789,20 @@ Proof.
     destruct Hin as [<-|Hin]; [assumption|auto].
 Qed.
 
-(* C14-F1: with a floating segment every positive request becomes -1 *)
-Lemma init_offset_dynamic_refuted_lemma :
-  exists t r, wf_table t /\ 0 < r /\ (exists s, In s (segs t) /\ fo s = r) /\ set_init t r = Ok (-1).
+(* whatever the setter accepts is a start the merge / parse theorems speak about *)
+Lemma init_offset_valid_start_lemma t r io : set_init t r = Ok io -> valid_start t io.
 Proof.
-  exists t_mx8ulp_nor, 1024. split; [vm_compute; reflexivity|]. split; [lia|]. split.
-  - eexists. split; [right; left; reflexivity|]. vm_compute. reflexivity.
-  - vm_compute. reflexivity.
+  intros H. destruct (Z_lt_le_dec 0 r) as [Hr|Hr].
+  - pose proof (init_offset_snaps_lemma t r Hr) as S. rewrite H in S. destruct S as ((s & Hs1 & Hs2) & Hle & _).
+    right. exists s. repeat split; try assumption. lia.
+  - unfold set_init in H. destruct (r <? 0) eqn:E1; [discriminate|]. destruct (r =? 0) eqn:E2; [|lia].
+    injection H as <-. now left.
 Qed.
+
+(* the repaired C14-F1 instance: the start of the FCB on the i.MX 8ULP NOR layout (with a floating segment) *)
+Example init_offset_floating_layout : set_init t_mx8ulp_nor 1024 = Ok 1024 /\ set_init t_mx8ulp_nor 1025 = Ok 4096 /\
+                                      set_init t_mx8ulp_nor 4097 = Err 1%N.
+Proof. vm_compute. repeat split. Qed.
 
 (* ================================================================== parse (merge) *)
 Lemma wf_chain_later s l s' :
@@ -1180,26 +1185,108 @@ Proof.
     split; vm_compute; reflexivity.
 Qed.
 
-(* C14-F4: the same image is parsed when the family has an FCB description and refused when it has not *)
-Lemma fcb_unsupported_family_refuted_lemma :
-  exists t ps d img, wf_table t /\ merge t 0 ps = Ok img /\
-    parse_typed (rec_std (mkCtx true d)) (find_std (mkCtx true d)) t img = Ok (0, ps) /\
-    parse_typed (rec_std (mkCtx false d)) (find_std (mkCtx false d)) t img = Err 1%N.
+(* repaired C14-F4: the FCB recogniser meets the contract whether or not the family has an FCB description *)
+Lemma padding_not_fcb_tag b : In b padding_bytes -> b <> 70%N /\ b <> 67%N.
 Proof.
-  exists t_mx8ulp_nor, [syn 129 256; [70; 67; 70; 66]%N ++ syn 130 508; syn 140 1024; []],
-         [mkDescr 13 (firstn 8 (syn 140 1024)) 1024 false; mkDescr 14 (firstn 8 (syn 140 1024)) 1024 false].
-  eexists. split; [vm_compute; reflexivity|]. split; [vm_compute; reflexivity|]. split; vm_compute; reflexivity.
+  intros H. assert (E : forallb (fun x => negb (N.eqb x 70) && negb (N.eqb x 67)) padding_bytes = true) by (vm_compute; reflexivity).
+  pose proof (proj1 (forallb_forall _ _) E b H) as Hb. cbv beta in Hb.
+  apply andb_true_iff in Hb as [H1 H2]. split; intros ->; discriminate.
 Qed.
 
-(* C14-F2: a 257-byte key blob fits before the FCB, is merged, and comes back as 256 bytes *)
-Lemma fixed_size_truncation_refuted_lemma :
-  exists t ps c img ps', wf_table t /\ fits t ps /\ merge t 0 ps = Ok img /\
-    parse_typed (rec_std c) (find_std c) t img = Ok (0, ps') /\
-    zlen (nth 0 ps []) = 257 /\ zlen (nth 0 ps' []) = 256.
+Lemma starts_with_app q p rest : starts_with q p = true -> starts_with q (p ++ rest) = true.
 Proof.
-  exists t_rt1010_nor, [syn 129 257; [70; 67; 70; 66]%N ++ syn 130 508; syn 140 300],
-         (mkCtx true [mkDescr 11 (firstn 8 (syn 140 300)) 300 true]).
-  eexists. eexists. split; [vm_compute; reflexivity|]. split.
-  - cbn. repeat split; vm_compute; intros; discriminate.
-  - split; [vm_compute; reflexivity|]. split; [vm_compute; reflexivity|]. split; vm_compute; reflexivity.
+  revert p; induction q as [|a q IH]; intros p H; [reflexivity|].
+  destruct p as [|b p]; [discriminate|]. cbn [app starts_with] in *.
+  destruct (N.eqb a b); [now apply IH|discriminate].
 Qed.
+
+Definition fcb_class (s : seg) : bool := (tag s =? 2) || (tag s =? 3).
+
+Lemma rec_fcb_contract c f s p :
+  fcb_class s = true -> 0 < fsize s -> In f padding_bytes ->
+  (p = [] \/ (zlen p = fsize s /\ fcb_tag p = true /\ forall b, In b padding_bytes -> all_eq b p = false)) ->
+  rec_ok (rec_std c) (find_std c) f s p.
+Proof.
+  intros Ht Hs Hf Hp. unfold fcb_class in Ht.
+  assert (Hfind : forall bin, find_std c s bin = Ok 0).
+  { intros bin. unfold find_std. destruct ((tag s =? 12) || (tag s =? 13) || (tag s =? 14)) eqn:E; [lia|reflexivity]. }
+  assert (Hrec : forall bin, rec_std c s bin =
+            if zlen bin <? fsize s then RFail 1%N
+            else if fcb_tag bin then (if fcb_supported c then let raw := zfirst (fsize s) bin in RFound raw (zlen raw) else rec_raw s bin)
+                 else if is_padding s bin then RAbsent else RFail 1%N).
+  { intros bin. unfold rec_std. cbv zeta.
+    destruct ((tag s =? 1) || (tag s =? 6) || (tag s =? 7) || (tag s =? 8)) eqn:E1; [lia|].
+    destruct (tag s =? 4) eqn:E4; [lia|]. destruct (tag s =? 5) eqn:E5; [lia|]. rewrite Ht. reflexivity. }
+  split.
+  - intros -> _. split; [assumption|]. intros n rest Hn. rewrite Hrec.
+    assert (Hz : zlen (repeat f n ++ rest) = Z.of_nat n + zlen rest) by (rewrite zlen_app, zlen_repeat; reflexivity).
+    pose proof (zlen_nonneg rest).
+    destruct (zlen (repeat f n ++ rest) <? fsize s) eqn:E; [lia|].
+    destruct (padding_not_fcb_tag f Hf) as [N1 N2].
+    assert (Htag : fcb_tag (repeat f n ++ rest) = false).
+    { destruct n as [|n]; [lia|]. unfold fcb_tag. cbn [repeat app starts_with].
+      destruct (N.eqb 70 f) eqn:A1; [apply N.eqb_eq in A1; congruence|].
+      destruct (N.eqb 67 f) eqn:A2; [apply N.eqb_eq in A2; congruence|]. reflexivity. }
+    rewrite Htag. unfold is_padding. rewrite Hz.
+    destruct (0 <? fsize s) eqn:E1; [|lia]. destruct (fsize s <=? Z.of_nat n + zlen rest) eqn:E2; [|lia].
+    cbn [andb].
+    assert (Hex : existsb (fun b => all_eq b (zfirst (fsize s) (repeat f n ++ rest))) padding_bytes = true).
+    { apply existsb_exists. exists f. split; [assumption|]. unfold zfirst.
+      rewrite firstn_app, repeat_length. rewrite firstn_repeat_le by lia.
+      replace (Z.to_nat (fsize s) - n)%nat with 0%nat by lia. cbn [firstn]. rewrite app_nil_r. apply all_eq_repeat. }
+    rewrite Hex. reflexivity.
+  - intros Hne rest _. destruct Hp as [->|(Hlen & Htg & Hnp)]; [congruence|].
+    split; [|intros _; apply Hfind]. rewrite Hrec.
+    assert (Hz : zlen (p ++ rest) = fsize s + zlen rest) by (rewrite zlen_app, Hlen; reflexivity).
+    pose proof (zlen_nonneg rest).
+    destruct (zlen (p ++ rest) <? fsize s) eqn:E; [lia|].
+    assert (Hfirst : zfirst (fsize s) (p ++ rest) = p).
+    { unfold zfirst, zlen in *. rewrite firstn_app. replace (Z.to_nat (fsize s) - length p)%nat with 0%nat by lia.
+      cbn [firstn]. rewrite app_nil_r. apply firstn_all2. lia. }
+    assert (Htag : fcb_tag (p ++ rest) = true).
+    { unfold fcb_tag in *. apply orb_true_iff in Htg. apply orb_true_iff.
+      destruct Htg as [T|T]; [left|right]; now apply starts_with_app. }
+    rewrite Htag. destruct (fcb_supported c).
+    + cbv zeta. rewrite Hfirst. reflexivity.
+    + unfold rec_raw. destruct ((0 <? fsize s) && (zlen (p ++ rest) <? fsize s)) eqn:E0; [lia|].
+      unfold is_padding. rewrite Hfirst.
+      assert (Hex : existsb (fun b => all_eq b p) padding_bytes = false).
+      { destruct (existsb (fun b => all_eq b p) padding_bytes) eqn:E1; [|reflexivity].
+        apply existsb_exists in E1 as (b & Hb1 & Hb2). rewrite (Hnp b Hb1) in Hb2. discriminate. }
+      rewrite Hex, !andb_false_r. destruct (0 <? fsize s) eqn:E1; [|lia]. reflexivity.
+Qed.
+
+(* the repaired instance: the same merged image is parsed back with and without an FCB description of the family *)
+Example fcb_any_family_instance :
+  let t := t_mx8ulp_nor in
+  let ps := [syn 129 256; [70; 67; 70; 66]%N ++ syn 130 508; syn 140 1024; []] in
+  let d := [mkDescr 13 (firstn 8 (syn 140 1024)) 1024 false; mkDescr 14 (firstn 8 (syn 140 1024)) 1024 false] in
+  match merge t 0 ps with
+  | Ok img => parse_typed (rec_std (mkCtx true d)) (find_std (mkCtx true d)) t img = Ok (0, ps) /\
+              parse_typed (rec_std (mkCtx false d)) (find_std (mkCtx false d)) t img = Ok (0, ps) /\
+              parse_typed (rec_std (mkCtx false d)) (find_std (mkCtx false d)) t (zskip 1024 img)
+                = Ok (1024, [[]; nth 1 ps []; nth 2 ps []; []])
+  | Err _ => False
+  end.
+Proof. vm_compute. repeat split. Qed.
+
+(* repaired C14-F2: a configuration is loaded only when no fixed-size class gets more bytes than its SIZE *)
+Lemma oversize_rejected_l l : load_check_l l = Ok tt ->
+  forall s p, In (s, p) l -> sized_tag s = true -> 0 < fsize s -> zlen p <= fsize s.
+Proof.
+  induction l as [|[s0 p0] tl IH]; intros H s p Hin Ht Hs; [contradiction|].
+  cbn [load_check_l] in H.
+  destruct (sized_tag s0 && (0 <? fsize s0) && (fsize s0 <? zlen p0)) eqn:E; [discriminate|].
+  destruct ((tag s0 =? 11) && is_nil p0); [discriminate|].
+  destruct Hin as [Eq|Hin]; [|eapply IH; eassumption].
+  injection Eq as -> ->. rewrite Ht in E. cbn [andb] in E. lia.
+Qed.
+
+Lemma oversize_rejected_lemma t ps : load_check t ps = Ok tt ->
+  forall s p, In (s, p) (combine (segs t) ps) -> sized_tag s = true -> 0 < fsize s -> zlen p <= fsize s.
+Proof. apply oversize_rejected_l. Qed.
+
+Example oversize_rejected_instance :
+  load_check t_rt1010_nor [syn 129 257; [70; 67; 70; 66]%N ++ syn 130 508; syn 140 300] = Err 1%N /\
+  load_check t_rt1010_nor [syn 129 256; [70; 67; 70; 66]%N ++ syn 130 508; syn 140 300] = Ok tt.
+Proof. vm_compute. split; reflexivity. Qed.
